@@ -113,6 +113,9 @@ class Gen:
                 out = r.choice(["panic", f"err:{r.randrange(1, 90)}"])
             elif r.random() < 0.08:
                 out = f"err:{r.randrange(1, 90)}"
+            if out.startswith("err") and r.random() < 0.5:
+                # script the cleanup on_stop that follows the on_run error
+                self.emit(f"hook {a} {self.hook_outcome(True)}")
             self.emit(f"run {a} {out}")
         elif x < 0.71:
             self.emit(f"kill {self.pick_strong(hostile)}")
